@@ -168,7 +168,7 @@ func runC07(r *Run) {
 		trigger string // none cancel deadline close
 		callers int
 	}
-	faults := []string{"dial-error", "dial-blocks", "write-error", "read-eof", "read-reset", "short-frame", "garbage-frame", "close-in-flight", "silence", "silence-after-traffic", "cancel-while-dialing-then-next", "dial-completes-after-close", "partial-frame-then-silence"}
+	faults := []string{"dial-error", "dial-blocks", "write-error", "read-eof", "read-reset", "short-frame", "garbage-frame", "close-in-flight", "silence", "silence-after-traffic", "cancel-while-dialing-then-next", "dial-completes-after-close", "partial-frame-then-silence", "junk-datagrams-forever"}
 	triggers := []string{"none", "cancel", "deadline", "close"}
 	var scens []scen
 	for _, kind := range []string{"pipeline-tcp", "pipeline-udp", "reuse"} {
@@ -186,6 +186,9 @@ func runC07(r *Run) {
 				if f == "partial-frame-then-silence" && kind == "pipeline-udp" {
 					continue // datagrams have no frames to cut
 				}
+				if f == "junk-datagrams-forever" && kind != "pipeline-udp" {
+					continue // on a stream a frame shorter than a header ends the connection (short-frame / garbage-frame)
+				}
 				for _, n := range []int{1, 3} {
 					scens = append(scens, scen{kind, f, tr, n})
 				}
@@ -196,7 +199,7 @@ func runC07(r *Run) {
 	if !r.Thorough() && len(scens) > 150 {
 		keep := scens[:150]
 		for _, sc := range scens[150:] {
-			if sc.fault == "cancel-while-dialing-then-next" || sc.fault == "silence-after-traffic" || sc.fault == "dial-completes-after-close" {
+			if sc.fault == "cancel-while-dialing-then-next" || sc.fault == "silence-after-traffic" || sc.fault == "dial-completes-after-close" || (sc.fault == "junk-datagrams-forever" && sc.trigger == "none") {
 				keep = append(keep, sc)
 			}
 		}
@@ -217,6 +220,13 @@ func runC07(r *Run) {
 		partialCut := r.Rng.Intn(3)
 		partialAfterTraffic := sc.fault == "partial-frame-then-silence" && sc.callers > 1 && r.Rng.Intn(3) == 0
 		partialSent := map[*fakeConn]bool{}
+		junkStarted := map[*fakeConn]bool{}
+		var junkPool [][]byte // drawn before the callers start: onWrite runs on their goroutines
+		if sc.fault == "junk-datagrams-forever" {
+			for i := 0; i < 8; i++ {
+				junkPool = append(junkPool, junk07(r))
+			}
+		}
 		var cleared []string // read deadlines cleared (zero time) while a query was written and unanswered: diagnostic only
 		onWrite := func(c *fakeConn, w []byte) error {
 			q := c.payloadOf(w)
@@ -256,6 +266,24 @@ func runC07(r *Run) {
 					c.feedErr(io.EOF)
 				}
 			case "silence":
+			case "junk-datagrams-forever":
+				// the peer answers every datagram it gets with one that is shorter than a DNS header, and keeps doing so at
+				// least once per second of the connection's (scaled) clock for as long as the connection exists: never a reply
+				c.feed(junkPool[k%len(junkPool)])
+				mu.Lock()
+				started := junkStarted[c]
+				junkStarted[c] = true
+				mu.Unlock()
+				if !started {
+					every := time.Second / scale07 * time.Duration(2+k%7) / 10 // 0.2 .. 0.8 s on the connection's clock
+					go func() {
+						t0 := time.Now()
+						for i := 0; !c.isClosed() && time.Since(t0) < 8*time.Second; i++ {
+							time.Sleep(every)
+							c.feed(junkPool[i%len(junkPool)])
+						}
+					}()
+				}
 			case "partial-frame-then-silence":
 				mu.Lock()
 				full := partialAfterTraffic && answered == 0
@@ -448,6 +476,9 @@ func runC07(r *Run) {
 					r.Fail("a pending exchange succeeded after Close on a silent server", desc)
 				}
 			}
+		}
+		if sc.fault == "junk-datagrams-forever" {
+			desc["peer"] = "answers every datagram, and at least once per second of the connection's clock, with a datagram of 1..11 bytes; never a reply"
 		}
 		if sc.fault == "cancel-while-dialing-then-next" {
 			// the cancelled callers are gone; now the dial succeeds and the next call must not be held up
@@ -665,6 +696,7 @@ func runC07(r *Run) {
 	runC07Reuse(r)
 	runC07CloseRace(r)
 	runC07DialDuringClose(r)
+	runC07QueueOverflowClose(r)
 	runC07Upstreams(r)
-	r.Finish("part 1: scripted histories (query parks / reply / give up / stray reply) on one TraditionalDnsConn, comparing the kind of read deadline in force with the model after every operation; part 2: transports {pipeline over stream, pipeline over datagram, reuse} x faults {dial error, dial that blocks, write error, EOF, reset, short frame, garbage frame, peer close with queries in flight, silence, silence after traffic, callers cancelled while dialing then the dial succeeds, on stream transports a reply frame cut short (length header only / header and half of the body / all but the last byte; optionally after one complete reply) followed by silence} x {unbounded context, cancel, deadline, transport Close} x {1, 3} callers, with connection deadlines shortened 100x; after each: Close, a later call, open connections, goroutines in transport code; part 3: Close racing with the simultaneous failure of 8..31 connections with queries in flight; part 1b: scripted histories (query parks / reply / reply with the reader's deadline call held up and the next query sent the moment the reply is in / caller gives up / late reply / unexpected data) on one reused connection of a ReuseConnTransport, comparing the kind of read deadline in force with the model (run with the statement order regenerated from reusableConn.readLoop) after every operation; part 1c: the same window end to end with deadlines shortened 100x and a 1000 s idle timeout: 1..3 answered queries, then silence with an unbounded context; part 4: Close called while one caller is inside the transport's critical section (held there by a slow SetReadDeadline on the pooled connection) and 1..3 more calls queue up before or behind Close: Close and all calls return, no call is served on a connection dialed after Close returned, a later call fails at once, every connection dialed is closed, no goroutine is left; part 4b: Close held inside the Close() of a pooled connection (slow peer) with the transport's mutex held while the gated dials of 1..3 pending calls (unbounded contexts, some given up first, dialer checking its context or not) return their connections during Close or after it returned: Close and all calls return, on the reuse transport a call pending across Close returns an error, a later call fails at once, every connection dialed is closed, no goroutine is left; part 5: the upstreams built by NewUpstream {udp with its tcp retry, tcp, tcp+pipeline} on loopback sockets with the real timeouts x server behaviour per query {udp: answer, TC (at once / late), silence; tcp: answer, silence, close, half a frame, refused dial} x {unbounded context, cancel placed before the call / when the udp side has the query / when the tcp side has the (retried) query / at a random moment, deadline 30..150 ms, Close of the upstream placed likewise} x 1..5 concurrent calls: a call returns within 1 s of the end of its context and of Close, a failed connection gives an error, afterwards Close returns, a later call fails at once, connections opened = connections closed (EventObserver), no goroutine is left; calls whose phase at the end of the context is known are replayed on the wrapper model (phases and their contexts regenerated from upstream.go); thorough: unbounded context on a silent server returns with an error within 40 s")
+	r.Finish("part 1: scripted histories (query parks / reply / give up / stray reply) on one TraditionalDnsConn, comparing the kind of read deadline in force with the model after every operation; part 2: transports {pipeline over stream, pipeline over datagram, reuse} x faults {dial error, dial that blocks, write error, EOF, reset, short frame, garbage frame, peer close with queries in flight, silence, silence after traffic, callers cancelled while dialing then the dial succeeds, on stream transports a reply frame cut short (length header only / header and half of the body / all but the last byte; optionally after one complete reply) followed by silence, on the datagram transport a peer that answers every (re)sent query and at least once per second of the connection's clock with datagrams shorter than a DNS header, for ever} x {unbounded context, cancel, deadline, transport Close} x {1, 3} callers, with connection deadlines shortened 100x; after each: Close, a later call, open connections, goroutines in transport code; part 3: Close racing with the simultaneous failure of 8..31 connections with queries in flight; part 1b: scripted histories (query parks / reply / reply with the reader's deadline call held up and the next query sent the moment the reply is in / caller gives up / late reply / unexpected data) on one reused connection of a ReuseConnTransport, comparing the kind of read deadline in force with the model (run with the statement order regenerated from reusableConn.readLoop) after every operation; part 1c: the same window end to end with deadlines shortened 100x and a 1000 s idle timeout: 1..3 answered queries, then silence with an unbounded context; part 4: Close called while one caller is inside the transport's critical section (held there by a slow SetReadDeadline on the pooled connection) and 1..3 more calls queue up before or behind Close: Close and all calls return, no call is served on a connection dialed after Close returned, a later call fails at once, every connection dialed is closed, no goroutine is left; part 4b: Close held inside the Close() of a pooled connection (slow peer) with the transport's mutex held while the gated dials of 1..3 pending calls (unbounded contexts, some given up first, dialer checking its context or not) return their connections during Close or after it returned: Close and all calls return, on the reuse transport a call pending across Close returns an error, a later call fails at once, every connection dialed is closed, no goroutine is left; part 4c: pipeline transports (stream / datagram) with MaxConcurrentQueryWhileDialing (limit+1..3) > MaxConcurrentQuery (limit 1..3) of the dialed connection: a burst of limit+2..4 callers with unbounded contexts during a gated dial, the dial released, server silent or answering every 2nd/3rd query, real 10 s waiting-reply timeout, then Close: Close and every call return, no success on a silent server, a later call fails at once, every connection dialed is closed, no goroutine is left; part 5: the upstreams built by NewUpstream {udp with its tcp retry, tcp, tcp+pipeline} on loopback sockets with the real timeouts x server behaviour per query {udp: answer, TC (at once / late), silence; tcp: answer, silence, close, half a frame, refused dial} x {unbounded context, cancel placed before the call / when the udp side has the query / when the tcp side has the (retried) query / at a random moment, deadline 30..150 ms, Close of the upstream placed likewise} x 1..5 concurrent calls: a call returns within 1 s of the end of its context and of Close, a failed connection gives an error, afterwards Close returns, a later call fails at once, connections opened = connections closed (EventObserver), no goroutine is left; calls whose phase at the end of the context is known are replayed on the wrapper model (phases and their contexts regenerated from upstream.go); thorough: unbounded context on a silent server returns with an error within 40 s")
 }
